@@ -492,7 +492,6 @@ macro_rules! verif_host_stubs {
         #[cfg_attr(kani, kani::stub(crate::rt::async_support::subtask::cancel, crate::rt::async_support::verif::host::subtask_cancel))]
         #[cfg_attr(kani, kani::stub(crate::rt::async_support::subtask::drop, crate::rt::async_support::verif::host::subtask_drop))]
         $(#[$m])*
-        #[cfg_attr(bytecodealliance_wit_bindgen_verif_native, test)]
         pub fn $name() $body
     };
 }
